@@ -120,17 +120,17 @@ def step (t : Toggles) (d : DS) (toks : List String) : DS × String :=
     match parseWrites rest with
     | none => (d, "bad-op")
     | some ws =>
-      match (sessionP d.prog ws).run { d.ps with st := { d.ps.st with log := [] } } with
+      match runP (sessionP d.prog ws) { d.ps with st := { d.ps.st with log := [] } } with
       | .ok (rs, ps) => ({ d with ps := ps }, " ".intercalate (rs.map showSetRes) ++ " |" ++ execsStr d.unordered ps.st.log ++ flags ps)
       | .error e => (d, showErr e)
   | "round" :: rest =>
     match rest.mapM String.toNat? with
     | none => (d, "bad-op")
     | some ks =>
-      match (roundP t d.prog ks).run { d.ps with st := { d.ps.st with log := [], choicePoints := 0 } } with
-      | .ok (vs, ps) => ({ d with ps := ps }, " ".intercalate (vs.map toString) ++ " |" ++ execsStr d.unordered ps.st.log
+      match runP' (roundP t d.prog ks) { d.ps with st := { d.ps.st with log := [], choicePoints := 0 } } with
+      | (.ok vs, ps) => ({ d with ps := ps }, " ".intercalate (vs.map toString) ++ " |" ++ execsStr d.unordered ps.st.log
           ++ flags ps ++ (if ps.st.choicePoints > 0 then " ~" else ""))
-      | .error e => (d, showErr e)
+      | (.error e, ps) => (d, showErr e ++ (if ps.st.choicePoints > 0 then " ~" else ""))
   | ["restart"] => ({ d with ps := restartP d.ps }, "restarted")
   | ["crash", l] =>
     match l.toNat? with
